@@ -13,7 +13,7 @@ UBSAN_OPTIONS = "print_stacktrace=1:halt_on_error=1:exitcode=98"
 
 
 class Run:
-    __slots__ = ("rc", "sig", "out", "err", "timeout", "depcut", "cpu_exceeded", "twin")
+    __slots__ = ("rc", "sig", "out", "err", "timeout", "depcut", "cpu_exceeded", "twin", "dir")
 
     def crashed(self):
         """ASan/UBSan report, fatal signal, or non-zero exit (main() always returns 0)."""
